@@ -414,6 +414,9 @@ class PhaseField(_Simu):
             oldAndNewDamage[:, 0] = old_damage
             oldAndNewDamage[:, 1] = d_np1
             d_np1 = np.max(oldAndNewDamage, 1)
+            # the irreversible damage is the state of the simulation (saved by Save_Iter, start of the next Solve)
+            self._Set_solutions(self.ProblemTypes.damage, d_np1)
+            self.__updatedDisplacement = False
 
         else:
             raise Exception("Unknown phase field solver.")
